@@ -1471,7 +1471,572 @@ func genCodec(r *Repo) (string, error) {
 	fmt.Fprintf(&b, "\n(* recv: the decode buffer handed to m.decode is the pooled (or new) slice cut to exactly the size read from the stream:\n   data := *datap; data = make([]byte, size) | data = data[:size]; dataBuf = buffer{data: data} *)\nDefinition gen_recv_buffer_exact : bool := %s.\n", boolc(g.factRecvBufferExact()))
 	fmt.Fprintf(&b, "(* tread.handle: n, err = file.ReadAt(buf[:count], off)  and the reply carries  Data: buf[:n], fullBuffer: buf *)\nDefinition gen_rread_data_is_n : bool := %s.\n", boolc(g.factRreadDataIsN()))
 	fmt.Fprintf(&b, "(* rreadServerPayloader.PayloadCleanup: copy(r.Data, r.cs.pristineZeros) and only then readBufPool.Put(&r.fullBuffer);\n   pristineZeros and the pooled buffers are both make([]byte, msize) *)\nDefinition gen_cleanup_zeroes_before_put : bool := %s.\n", boolc(g.factCleanupZeroes()))
+	// transport.go send/recv framing, read by role (variables are named after what they are used for, not after their spelling)
+	fs := g.frameShape()
+	fmt.Fprintf(&b, "\n(* transport.go framing as read from send and recv.  send: header writers in order (value, writer), vectors in the order they are\n   appended, summands of totalLength.  recv: header readers in order (role, reader), the size checks before lookup in order, how the body is split:\n   for a payloader FixedSize bytes go to the decode buffer and the rest is the payload, otherwise the whole body is the decode buffer.\n   \"?\" = not understood *)\n")
+	fmt.Fprintf(&b, "Definition gen_send_header : list (string * string) := %s.\nDefinition gen_send_vectors : list string := %s.\nDefinition gen_send_total : list string := %s.\n", cgPairList(fs.sendHdr), cgStrList(fs.sendVecs), cgStrList(fs.sendTotal))
+	fmt.Fprintf(&b, "Definition gen_recv_header : list (string * string) := %s.\nDefinition gen_recv_checks : list string := %s.\nDefinition gen_recv_split : list string := %s.\n", cgPairList(fs.recvHdr), cgStrList(fs.recvChecks), cgStrList(fs.recvSplit))
+	// recv's appendBuffer read structurally: which view of the pooled buffer decides growth, is handed to decode, is filled by ReadFrom
+	cmpS, decS, rdS := g.recvSlices()
+	fmt.Fprintf(&b, "\n(* recv's appendBuffer, pooled branch: the view of the pooled buffer whose length is compared with size, the view handed to m.decode\n   (buffer{data: ...}) and the view appended to vecs (filled by ReadFrom): \"first\" = x[:size], \"len\" = *datap, \"cap\" = x[:cap(x)]; the other\n   branch must be make([]byte, size) *)\nDefinition gen_recv_grow_cmp : string := %q.\nDefinition gen_recv_decode_slice : string := %q.\nDefinition gen_recv_read_slice : string := %q.\n", cmpS, decS, rdS)
+	// the pool operations a Tread goes through, in execution order (success path): tread.handle, then send
+	// (WriteTo, deferred PayloadCleanup inlined).  "?" marks anything the reader does not understand: the
+	// obligation GenCheckReuse.read_ops_spec then fails; never a refusal.
+	ops := append(g.roEvents(g.funcs["tread.handle"]), g.roEvents(g.funcs["send"])...)
+	fmt.Fprintf(&b, "\n(* pool operations of one Tread in execution order: tread.handle (readBufPool.Get, ReadAt / xattr copy into the buffer, any Put), then send\n   (vecs.WriteTo, the deferred PayloadCleanup of rreadServerPayloader inlined: zeroing copy, readBufPool.Put); deferred calls run at function end *)\nDefinition gen_read_ops : list string := %s.\n", cgStrList(ops))
 	return b.String(), nil
+}
+
+type cgFrameShape struct {
+	sendHdr, recvHdr                          [][2]string
+	sendVecs, sendTotal, recvChecks, recvSplit []string
+}
+
+func cgPairList(l [][2]string) string {
+	var parts []string
+	for _, p := range l {
+		parts = append(parts, fmt.Sprintf("(%q, %q)", p[0], p[1]))
+	}
+	return "[" + strings.Join(parts, "; ") + "]"
+}
+
+// cgRename replaces whole identifiers in normalised expression text.
+func cgRename(text string, ren map[string]string) string {
+	var out strings.Builder
+	i := 0
+	isId := func(c byte) bool { return c == '_' || c >= '0' && c <= '9' || c >= 'a' && c <= 'z' || c >= 'A' && c <= 'Z' }
+	for i < len(text) {
+		if isId(text[i]) {
+			j := i
+			for j < len(text) && isId(text[j]) {
+				j++
+			}
+			w := text[i:j]
+			if i > 0 && text[i-1] == '.' {
+				out.WriteString(w)
+			} else if r, ok := ren[w]; ok {
+				out.WriteString(r)
+			} else {
+				out.WriteString(w)
+			}
+			i = j
+		} else {
+			out.WriteByte(text[i])
+			i++
+		}
+	}
+	return out.String()
+}
+
+func (g *cg) frameShape() cgFrameShape {
+	var fs cgFrameShape
+	q := []string{"?"}
+	fs.sendVecs, fs.sendTotal, fs.recvChecks, fs.recvSplit = q, q, q, q
+	paramName := func(fd *ast.FuncDecl, typ string) string {
+		for _, f := range fd.Type.Params.List {
+			if g.text(f.Type) == typ && len(f.Names) == 1 {
+				return f.Names[0].Name
+			}
+		}
+		return ""
+	}
+	// ---------------- send ----------------
+	if fd, ok := g.funcs["send"]; ok {
+		ren := map[string]string{}
+		if n := paramName(fd, "tag"); n != "" {
+			ren[n] = "TAG"
+		}
+		if n := paramName(fd, "message"); n != "" {
+			ren[n] = "MSG"
+		}
+		var hdrBuf, dataBuf, vecs, total, payl string
+		// roles: X := buffer{data: (*D)[:0]} is the data buffer, X := buffer{data: H[:0]} with H an array the header buffer
+		ast.Inspect(fd.Body, func(n ast.Node) bool {
+			switch x := n.(type) {
+			case *ast.AssignStmt:
+				if len(x.Lhs) == 1 && len(x.Rhs) == 1 && x.Tok == token.DEFINE {
+					l, r := g.text(x.Lhs[0]), g.text(x.Rhs[0])
+					switch {
+					case strings.HasPrefix(r, "buffer{data:(*") && strings.HasSuffix(r, ")[:0]}"):
+						dataBuf = l
+					case strings.HasPrefix(r, "buffer{data:") && strings.HasSuffix(r, "[:0]}"):
+						hdrBuf = l
+						ren[strings.TrimSuffix(strings.TrimPrefix(r, "buffer{data:"), "[:0]}")] = "HDR"
+					case strings.HasPrefix(r, "make(net.Buffers,"):
+						vecs = l
+					case strings.HasSuffix(r, ".Payload()"):
+						payl = l
+					case strings.HasPrefix(r, "headerLength+"):
+						total = l
+					}
+				}
+			}
+			return true
+		})
+		if dataBuf != "" {
+			ren[dataBuf] = "DATA"
+		}
+		if payl != "" {
+			ren[payl] = "PAYLOAD"
+		}
+		if total != "" {
+			ren[total] = "TOTAL"
+		}
+		fs.sendVecs, fs.sendTotal = nil, nil
+		ast.Inspect(fd.Body, func(n ast.Node) bool {
+			switch x := n.(type) {
+			case *ast.CallExpr:
+				if sel, ok := x.Fun.(*ast.SelectorExpr); ok && hdrBuf != "" && g.text(sel.X) == hdrBuf && strings.HasPrefix(sel.Sel.Name, "Write") && len(x.Args) == 1 {
+					fs.sendHdr = append(fs.sendHdr, [2]string{cgRename(g.text(x.Args[0]), ren), strings.TrimPrefix(sel.Sel.Name, "Write")})
+				}
+			case *ast.AssignStmt:
+				if len(x.Lhs) != 1 || len(x.Rhs) != 1 {
+					return true
+				}
+				l, r := g.text(x.Lhs[0]), cgRename(g.text(x.Rhs[0]), ren)
+				switch {
+				case vecs != "" && l == vecs && strings.HasPrefix(r, "append("+vecs+","):
+					fs.sendVecs = append(fs.sendVecs, strings.TrimSuffix(strings.TrimPrefix(r, "append("+vecs+","), ")"))
+				case total != "" && l == total && x.Tok == token.DEFINE:
+					fs.sendTotal = append(fs.sendTotal, strings.Split(r, "+")...)
+				case total != "" && l == total && x.Tok == token.ADD_ASSIGN:
+					fs.sendTotal = append(fs.sendTotal, r)
+				case total != "" && l == total:
+					fs.sendTotal = append(fs.sendTotal, "?")
+				}
+			}
+			return true
+		})
+	}
+	// ---------------- recv ----------------
+	if fd, ok := g.funcs["recv"]; ok {
+		ren := map[string]string{}
+		var msizeP string
+		for _, f := range fd.Type.Params.List {
+			if g.text(f.Type) == "uint32" && len(f.Names) == 1 {
+				msizeP = f.Names[0].Name
+				ren[msizeP] = "MSIZE"
+			}
+		}
+		var hdrBuf string
+		roleOf := map[string]string{}
+		var lookupArgs []string
+		ast.Inspect(fd.Body, func(n ast.Node) bool {
+			switch x := n.(type) {
+			case *ast.AssignStmt:
+				if len(x.Lhs) == 1 && len(x.Rhs) == 1 && x.Tok == token.DEFINE {
+					l, r := g.text(x.Lhs[0]), g.text(x.Rhs[0])
+					if strings.HasPrefix(r, "buffer{data:") && strings.HasSuffix(r, "[:]}") {
+						hdrBuf = l
+					}
+				}
+				if len(x.Lhs) == 2 && len(x.Rhs) == 1 {
+					if c, ok := x.Rhs[0].(*ast.CallExpr); ok && len(c.Args) == 2 && lookupArgs == nil {
+						if id, ok := c.Fun.(*ast.Ident); ok && paramName(fd, "lookupTagAndType") == id.Name {
+							lookupArgs = []string{g.text(c.Args[0]), g.text(c.Args[1])}
+						}
+					}
+				}
+			}
+			return true
+		})
+		if len(lookupArgs) == 2 {
+			roleOf[lookupArgs[0]] = "tag"
+			roleOf[lookupArgs[1]] = "typ"
+			ren[lookupArgs[0]] = "TAG"
+			ren[lookupArgs[1]] = "TYP"
+		}
+		var sizeV, remV, fixedV, paylV string
+		for _, st := range fd.Body.List {
+			as, ok := st.(*ast.AssignStmt)
+			if !ok || len(as.Lhs) != 1 || len(as.Rhs) != 1 || as.Tok != token.DEFINE {
+				continue
+			}
+			c, ok := as.Rhs[0].(*ast.CallExpr)
+			if !ok {
+				if be, ok := as.Rhs[0].(*ast.BinaryExpr); ok && be.Op == token.SUB && sizeV != "" && g.text(be.X) == sizeV && g.text(be.Y) == "headerLength" {
+					remV = g.text(as.Lhs[0])
+					ren[remV] = "REMAINING"
+				}
+				continue
+			}
+			sel, ok := c.Fun.(*ast.SelectorExpr)
+			if !ok || hdrBuf == "" || g.text(sel.X) != hdrBuf || !strings.HasPrefix(sel.Sel.Name, "Read") || len(c.Args) != 0 {
+				continue
+			}
+			v := g.text(as.Lhs[0])
+			role := roleOf[v]
+			if role == "" && sizeV == "" {
+				role, sizeV = "size", v
+				ren[v] = "SIZE"
+			}
+			if role == "" {
+				role = "?"
+			}
+			fs.recvHdr = append(fs.recvHdr, [2]string{role, strings.TrimPrefix(sel.Sel.Name, "Read")})
+		}
+		// checks before lookup: top-level ifs whose condition mentions SIZE only
+		fs.recvChecks, fs.recvSplit = nil, nil
+		for _, st := range fd.Body.List {
+			is, ok := st.(*ast.IfStmt)
+			if !ok || is.Init != nil {
+				continue
+			}
+			c := cgRename(g.text(is.Cond), ren)
+			if strings.Contains(c, "SIZE") {
+				ret := "?"
+				if n := len(is.Body.List); n > 0 {
+					if r, ok := is.Body.List[n-1].(*ast.ReturnStmt); ok && len(r.Results) == 3 {
+						ret = cgRename(g.text(r.Results[2]), ren)
+						if i := strings.Index(ret, "{"); i >= 0 {
+							ret = ret[:i]
+						}
+					}
+				}
+				fs.recvChecks = append(fs.recvChecks, c+"=>"+ret)
+			}
+		}
+		if remV != "" {
+			fs.recvChecks = append(fs.recvChecks, "REMAINING=SIZE-headerLength")
+		}
+		// the split: if payloader, ok := m.(payloader); ok { ... } else if remaining != 0 { appendBuffer(int(remaining)) }
+		for _, st := range fd.Body.List {
+			is, ok := st.(*ast.IfStmt)
+			if !ok || is.Init == nil || !strings.HasSuffix(g.text(is.Init), ".(payloader)") {
+				continue
+			}
+			ast.Inspect(is.Body, func(n ast.Node) bool {
+				if as, ok := n.(*ast.AssignStmt); ok && len(as.Lhs) == 1 && len(as.Rhs) == 1 && as.Tok == token.DEFINE {
+					r := g.text(as.Rhs[0])
+					if strings.HasSuffix(r, ".FixedSize()") {
+						fixedV = g.text(as.Lhs[0])
+						ren[fixedV] = "FIXED"
+					}
+					if strings.HasSuffix(r, ".Payload()") {
+						paylV = g.text(as.Lhs[0])
+						ren[paylV] = "PAYLOAD"
+					}
+				}
+				return true
+			})
+			appendName := "appendBuffer"
+			for _, st2 := range fd.Body.List {
+				if as, ok := st2.(*ast.AssignStmt); ok && len(as.Lhs) == 1 && len(as.Rhs) == 1 {
+					if _, ok := as.Rhs[0].(*ast.FuncLit); ok {
+						appendName = g.text(as.Lhs[0])
+					}
+				}
+			}
+			var walk func(n ast.Node, pre string)
+			walk = func(n ast.Node, pre string) {
+				ast.Inspect(n, func(m ast.Node) bool {
+					switch x := m.(type) {
+					case *ast.IfStmt:
+						if m == n {
+							return true
+						}
+						c := cgRename(g.text(x.Cond), ren)
+						if strings.Contains(c, "FIXED") || strings.Contains(c, "PAYLOAD") || strings.Contains(c, "REMAINING") {
+							if n := len(x.Body.List); n > 0 {
+								if r, ok := x.Body.List[n-1].(*ast.ReturnStmt); ok && len(r.Results) == 3 {
+									fs.recvSplit = append(fs.recvSplit, pre+c+"=>"+cgRename(g.text(r.Results[2]), ren))
+									return false
+								}
+							}
+							fs.recvSplit = append(fs.recvSplit, pre+"if "+c)
+						}
+					case *ast.CallExpr:
+						f := g.text(x.Fun)
+						switch {
+						case f == appendName && len(x.Args) == 1:
+							fs.recvSplit = append(fs.recvSplit, pre+"decode-buffer "+cgRename(g.text(x.Args[0]), ren))
+						case f == "make" && len(x.Args) == 2 && g.text(x.Args[0]) == "[]byte":
+							fs.recvSplit = append(fs.recvSplit, pre+"payload "+cgRename(g.text(x.Args[1]), ren))
+						}
+					}
+					return true
+				})
+			}
+			walk(is.Body, "payloader: ")
+			if is.Else != nil {
+				if e, ok := is.Else.(*ast.IfStmt); ok {
+					fs.recvSplit = append(fs.recvSplit, "other: if "+cgRename(g.text(e.Cond), ren))
+					walk(e.Body, "other: ")
+				} else {
+					walk(is.Else, "other: ")
+				}
+			}
+		}
+	}
+	return fs
+}
+
+// recvSlices evaluates recv's appendBuffer closure symbolically on the branch where the pooled buffer is kept.
+// A value is a view of the pooled buffer ("len", "cap", "first") or "new" (make([]byte, size)); anything else is "?".
+func (g *cg) recvSlices() (cmp, dec, rd string) {
+	cmp, dec, rd = "?", "?", "?"
+	fd, ok := g.funcs["recv"]
+	if !ok {
+		return
+	}
+	var fl *ast.FuncLit
+	ast.Inspect(fd.Body, func(n ast.Node) bool {
+		if x, ok := n.(*ast.FuncLit); ok && fl == nil && x.Type.Params != nil && len(x.Type.Params.List) == 1 && len(x.Type.Params.List[0].Names) == 1 {
+			has := false
+			ast.Inspect(x.Body, func(m ast.Node) bool {
+				if c, ok := m.(*ast.CallExpr); ok && strings.HasSuffix(g.text(c.Fun), "dataPool.Get") {
+					has = true
+				}
+				return true
+			})
+			if has {
+				fl = x
+			}
+		}
+		return true
+	})
+	if fl == nil {
+		return
+	}
+	size := fl.Type.Params.List[0].Names[0].Name
+	env := map[string]string{} // variable -> view; pointers to the pooled slice are "ptr"
+	var eval func(e ast.Expr) string
+	eval = func(e ast.Expr) string {
+		switch x := e.(type) {
+		case *ast.ParenExpr:
+			return eval(x.X)
+		case *ast.Ident:
+			if v, ok := env[x.Name]; ok && v != "ptr" {
+				return v
+			}
+		case *ast.StarExpr:
+			if id, ok := x.X.(*ast.Ident); ok && env[id.Name] == "ptr" {
+				return "len"
+			}
+		case *ast.SliceExpr:
+			base := eval(x.X)
+			if x.Low != nil || x.Slice3 || x.High == nil || base == "?" {
+				return "?"
+			}
+			h := g.text(x.High)
+			inner := x.X
+			for {
+				p, ok := inner.(*ast.ParenExpr)
+				if !ok {
+					break
+				}
+				inner = p.X
+			}
+			switch {
+			case h == size && base == "new":
+				return "new"
+			case h == size:
+				return "first"
+			case h == "cap("+g.text(inner)+")" && base != "new":
+				return "cap"
+			case h == "len("+g.text(inner)+")":
+				return base
+			}
+		case *ast.CallExpr:
+			if g.text(x) == "make([]byte,"+size+")" {
+				return "new"
+			}
+		}
+		return "?"
+	}
+	bad := false
+	var run func(stmts []ast.Stmt)
+	run = func(stmts []ast.Stmt) {
+		for _, st := range stmts {
+			switch x := st.(type) {
+			case *ast.AssignStmt:
+				if len(x.Lhs) != 1 || len(x.Rhs) != 1 {
+					bad = true
+					continue
+				}
+				l, r := g.text(x.Lhs[0]), x.Rhs[0]
+				rt := g.text(r)
+				switch {
+				case strings.HasSuffix(rt, "dataPool.Get().(*[]byte)"):
+					env[l] = "ptr"
+				case strings.HasPrefix(rt, "&"):
+					// datap = &data on the growing branch only; on the kept branch the pointer must stay the pooled one
+					bad = true
+				case lastArg(r) != nil && rt == "append("+l+","+g.text(lastArg(r))+")":
+					rd = eval(lastArg(r))
+				default:
+					if cl, ok := r.(*ast.CompositeLit); ok && g.text(cl.Type) == "buffer" && len(cl.Elts) == 1 {
+						if kv, ok := cl.Elts[0].(*ast.KeyValueExpr); ok && g.text(kv.Key) == "data" {
+							dec = eval(kv.Value)
+							continue
+						}
+						bad = true
+						continue
+					}
+					if _, isId := x.Lhs[0].(*ast.Ident); !isId {
+						bad = true
+						continue
+					}
+					env[l] = eval(r)
+				}
+			case *ast.IfStmt:
+				// if size > len(X) { grow } [else { keep }]
+				be, ok := x.Cond.(*ast.BinaryExpr)
+				if !ok || x.Init != nil || be.Op != token.GTR || g.text(be.X) != size {
+					bad = true
+					continue
+				}
+				c, ok := be.Y.(*ast.CallExpr)
+				if !ok || g.text(c.Fun) != "len" || len(c.Args) != 1 {
+					bad = true
+					continue
+				}
+				cmp = eval(c.Args[0])
+				// growing branch: must make a buffer of exactly size
+				grew := false
+				for _, gs := range x.Body.List {
+					if as, ok := gs.(*ast.AssignStmt); ok && len(as.Rhs) == 1 && g.text(as.Rhs[0]) == "make([]byte,"+size+")" {
+						grew = true
+					}
+				}
+				if !grew {
+					bad = true
+				}
+				if x.Else != nil {
+					if blk, ok := x.Else.(*ast.BlockStmt); ok {
+						run(blk.List)
+					} else {
+						bad = true
+					}
+				}
+			case *ast.ReturnStmt:
+			default:
+				bad = true
+			}
+		}
+	}
+	run(fl.Body.List)
+	if bad {
+		return "?", "?", "?"
+	}
+	return
+}
+
+func lastArg(e ast.Expr) ast.Expr {
+	if c, ok := e.(*ast.CallExpr); ok && len(c.Args) == 2 {
+		return c.Args[1]
+	}
+	return nil
+}
+
+// roEvents lists the read-buffer-pool events of a function in execution order.  Deferred calls are moved to the
+// end of the function (or function literal) they belong to, LIFO.  The clauses of a switch are alternatives: the
+// non-empty ones must agree.  An event under an if/for is conditional: "?".
+func (g *cg) roEvents(fd *ast.FuncDecl) []string {
+	if fd == nil || fd.Body == nil {
+		return []string{"?"}
+	}
+	return g.roBlock(fd.Body, 0)
+}
+
+func (g *cg) roBlock(body ast.Node, depth int) []string {
+	var evs, deferred []string
+	if depth > 4 {
+		return []string{"?"}
+	}
+	var visit func(n ast.Node) bool
+	sub := func(n ast.Node) []string {
+		if n == nil {
+			return nil
+		}
+		save := evs
+		evs = nil
+		ast.Inspect(n, visit)
+		out := evs
+		evs = save
+		return out
+	}
+	visit = func(n ast.Node) bool {
+		switch x := n.(type) {
+		case *ast.FuncLit:
+			evs = append(evs, g.roBlock(x.Body, depth+1)...)
+			return false
+		case *ast.DeferStmt:
+			deferred = append(sub(x.Call), deferred...)
+			return false
+		case *ast.GoStmt:
+			if len(sub(x.Call)) > 0 {
+				evs = append(evs, "?")
+			}
+			return false
+		case *ast.SwitchStmt:
+			evs = append(evs, sub(x.Init)...)
+			evs = append(evs, sub(x.Tag)...)
+			var alt []string
+			for _, c := range x.Body.List {
+				e := sub(c)
+				if len(e) == 0 {
+					continue
+				}
+				if alt == nil {
+					alt = e
+				} else if strings.Join(alt, ",") != strings.Join(e, ",") {
+					alt = []string{"?"}
+				}
+			}
+			evs = append(evs, alt...)
+			return false
+		case *ast.IfStmt:
+			evs = append(evs, sub(x.Init)...)
+			evs = append(evs, sub(x.Cond)...)
+			if len(sub(x.Body)) > 0 || (x.Else != nil && len(sub(x.Else)) > 0) {
+				evs = append(evs, "?")
+			}
+			return false
+		case *ast.ForStmt:
+			if len(sub(x.Init))+len(sub(x.Cond))+len(sub(x.Post))+len(sub(x.Body)) > 0 {
+				evs = append(evs, "?")
+			}
+			return false
+		case *ast.RangeStmt:
+			if len(sub(x.X))+len(sub(x.Body)) > 0 {
+				evs = append(evs, "?")
+			}
+			return false
+		case *ast.CallExpr:
+			f := g.text(x.Fun)
+			switch {
+			case strings.HasSuffix(f, ".readBufPool.Get"):
+				evs = append(evs, "get")
+			case strings.HasSuffix(f, ".readBufPool.Put"):
+				evs = append(evs, "put")
+			case strings.HasSuffix(f, ".file.ReadAt"):
+				evs = append(evs, "read")
+			case strings.HasSuffix(f, ".WriteTo") && len(x.Args) == 1:
+				evs = append(evs, "send")
+			case strings.HasSuffix(f, ".PayloadCleanup") && len(x.Args) == 0:
+				if pc, ok := g.funcs["rreadServerPayloader.PayloadCleanup"]; ok && pc.Body != nil {
+					evs = append(evs, g.roBlock(pc.Body, depth+1)...)
+				} else {
+					evs = append(evs, "?")
+				}
+				return false
+			case f == "copy" && len(x.Args) == 2:
+				dst, src := g.text(x.Args[0]), g.text(x.Args[1])
+				switch {
+				case strings.HasSuffix(src, ".pristineZeros") && strings.HasSuffix(dst, ".Data"):
+					evs = append(evs, "zero")
+				case strings.HasSuffix(src, ".pristineZeros"):
+					evs = append(evs, "?")
+				case strings.Contains(src, ".pendingXattr.buf"):
+					evs = append(evs, "read")
+				}
+			}
+		}
+		return true
+	}
+	ast.Inspect(body, visit)
+	return append(evs, deferred...)
 }
 
 func cgSortStrings(l []string) {
